@@ -132,6 +132,10 @@ def run(ctx, rep):
         if isinstance(st, ast.If) and cfg.branch_never_returns(cfg.node(st), True):
             tn = names_in(st.test)
             inter = any(isinstance(n, ast.BinOp) and isinstance(n.op, ast.BitAnd) for n in ast.walk(st.test)) or any(isinstance(n, ast.Call) and isinstance(n.func, ast.Attribute) and n.func.attr in ("intersection", "isdisjoint") for n in ast.walk(st.test))
+            wrapped = [m for m in ast.walk(st.test) if isinstance(m, ast.Call) and isinstance(m.func, ast.Name) and m.func.id in ("any", "all", "sum", "max", "min", "bool") and m.func.id != "bool"
+                       and any(isinstance(k, ast.BinOp) and isinstance(k.op, ast.BitAnd) for k in ast.walk(m))]
+            if "disjoint" in tn and inter and wrapped:
+                rep.violation("C13.2", construct_of(merge, "intersection-truth"), f"`{ast.unparse(wrapped[0])}` tests the ELEMENTS of the intersection instead of its emptiness: an overlap on qubit 0 only is falsy and goes undetected (`< Px q[0] | H q[0] >` is accepted)", f"{merge.path}:{st.lineno}", witness="< Px q[0] | H q[0] >")
             if "disjoint" in tn and inter:
                 ok = True
                 symmetric = True
